@@ -7,9 +7,12 @@
    callback, plus the outcomes.  Time is what C20 speaks about, so here the
    instants ARE the projected observables.
 
-     Delay     in : 0 wait stop slack margin               (stop < 0: never stopped)
+     Delay     in : 0 wait stop slack margin [cb]          (stop < 0: never stopped; cb: the callback keeps
+                                                            running for cb after it has recorded its start)
                obs: b a nruns trun sb sa sret F
-     Debounce  in : 1 wait slack margin  (op arg)*          op 0 Call, 1 Cancel, 2 Sleep arg
+     Debounce  in : 1 wait slack margin  (op arg)*          op 0 Call, 1 Cancel, 2 Sleep arg,
+                                                            3 Call with a slow callback (it keeps running
+                                                            for arg after it has recorded its start)
                obs: per Call  b a nruns trun ; per Cancel  b a ; then F
      Throttle  in : 2 d trailing slack margin  (op arg)*    op 0 Call, 1 Next (main waits <= arg for it),
                                                             2 Cancel, 3 Sleep arg
@@ -103,7 +106,10 @@ Fixpoint d_parse (k : Z) (ops : list (list Z)) (obs : list Z) : option (list dop
   | [] => Some ([], obs)
   | r :: ops' =>
       let o := hd_op r in
-      if o =? 0 then
+      (* op 3: a Call whose callback is slow.  [trun] is the instant the callback STARTED, which is
+         what the events DFire of the model and every clause of C20 speak about; how long it then
+         runs is not part of the system (nothing in func.go waits for it), so it is a Call. *)
+      if (o =? 0) || (o =? 3) then
         match obs with
         | b :: a :: n :: tr :: obs' =>
             match d_parse (k + 1) ops' obs' with
@@ -562,6 +568,7 @@ Definition thr_run (d m : Z) (trailing : bool) (ops : list (list Z)) : list Z :=
 Definition c20_run (w : list Z) : list Z :=
   match w with
   | 0 :: wait :: stop :: sl :: m :: [] => delay_run wait stop sl m
+  | 0 :: wait :: stop :: sl :: m :: _ :: [] => delay_run wait stop sl m
   | 1 :: wait :: sl :: m :: ops => deb_run wait m (chunks 2 ops)
   | 2 :: d :: tr :: sl :: m :: ops => thr_run d m (negb (tr =? 0)) (chunks 2 ops)
   | _ => wire_error
@@ -570,6 +577,7 @@ Definition c20_run (w : list Z) : list Z :=
 Definition c20_agree (w obs : list Z) : bool :=
   match w with
   | 0 :: wait :: stop :: sl :: m :: [] => delay_agree (us wait) stop (us sl) (us m) obs
+  | 0 :: wait :: stop :: sl :: m :: _ :: [] => delay_agree (us wait) stop (us sl) (us m) obs
   | 1 :: wait :: sl :: m :: ops => deb_agree (us wait) (us sl) (us m) (chunks 2 ops) obs
   | 2 :: d :: tr :: sl :: m :: ops => thr_agree (us d) (us sl) (us m) (negb (tr =? 0)) (chunks 2 ops) obs
   | _ => false
@@ -578,6 +586,7 @@ Definition c20_agree (w obs : list Z) : bool :=
 Definition c20_holds (w obs : list Z) : bool :=
   match w with
   | 0 :: wait :: stop :: sl :: m :: [] => delay_holds (us wait) stop (us sl) (us m) obs
+  | 0 :: wait :: stop :: sl :: m :: _ :: [] => delay_holds (us wait) stop (us sl) (us m) obs
   | 1 :: wait :: sl :: m :: ops => deb_holds (us wait) (us sl) (us m) (chunks 2 ops) obs
   | 2 :: d :: tr :: sl :: m :: ops => thr_holds (us d) (us sl) (us m) (negb (tr =? 0)) (chunks 2 ops) obs
   | _ => false
